@@ -779,4 +779,33 @@ def observe (v : View) : Obs :=
     outputs := v.outputs, ctx := v.chain.map (·.ctx), status := v.status, paused := v.paused.isSome,
     ctime := v.ctime, outcome := v.state.outcome }
 
+/-! ### crash / restore chains of `_do_step` calls (C08) -/
+inductive Seg (σ : Type) where
+  | running (s : St) (w : σ)
+  | finished (r : Ret) (w : σ)
+  | failed
+
+/-- `n` consecutive `_do_step` calls (fewer if the chain finishes) -/
+def runSteps {σ} (W : World σ) (is : Block) : Nat → St → σ → Seg σ
+  | 0, s, w => .running s w
+  | n+1, s, w =>
+    match doStep W is s w with
+    | .cont s' w' _ => runSteps W is n s' w'
+    | .done r w' => .finished r w'
+    | .error _ => .failed
+
+/-- the chain with crash points: after `n` further `_do_step` calls the stepper is saved, the instance abandoned, the
+stepper recreated from the saved state (a failing restore ends the run) and the chain continued -/
+def runCrash {σ} (E : Env) (W : World σ) (is : Block) (fuel : Nat) : List Nat → St → σ → Option (Ret × σ)
+  | [], s, w => runChain W is fuel s w
+  | n :: cs, s, w =>
+    match runSteps W is n s w with
+    | .running s' w' =>
+      (match restoreTop E is (saveTop E is s') with
+       | .ok s'' => runCrash E W is fuel cs s'' w'
+       | .error _ => none)
+    | .finished r w' => some (r, w')
+    | .failed => none
+
+
 end Persist
